@@ -232,6 +232,9 @@ fn op_compile(req: &Value, st: &mut State) -> Value {
             }
         }
     }
+    if let (Some(sql), true) = (&sql, req.get("fmtdiff").and_then(|v| v.as_bool()).unwrap_or(false)) {
+        out.insert("fmtdiff".into(), fmtdiff(src, req, sql));
+    }
     if let (Some(sql), Some(db)) = (&sql, req.get("db").and_then(|v| v.as_str())) {
         if let Some(conn) = st.dbs.get(db) {
             let prepare_only = req
@@ -244,6 +247,74 @@ fn op_compile(req: &Value, st: &mut State) -> Value {
         }
     }
     Value::Object(out)
+}
+
+/// Format-differential monitor: compile the same source with the `format` option flipped and compare the two
+/// texts token by token (dialect tokenizer, blanks and line breaks dropped). The formatter may only change layout.
+fn fmtdiff(src: &str, req: &Value, sql: &str) -> Value {
+    use sqlparser::tokenizer::{Token, Tokenizer};
+    let mut req2 = req.clone();
+    let was = req.get("format").and_then(|v| v.as_bool()).unwrap_or(false);
+    req2["format"] = json!(!was);
+    let opts = match parse_options(&req2) {
+        Ok(o) => o,
+        Err(_) => return json!({"status": "bad_target"}),
+    };
+    let (r, _) = guarded(|| prqlc::compile(src, &opts));
+    let other = match r {
+        Ok(Ok(s)) => s,
+        Ok(Err(e)) => return json!({"status": "other_rejected", "errors": errs_json(&e)}),
+        Err(p) => return json!({"status": "other_panic", "panic": p}),
+    };
+    let d = req
+        .get("target")
+        .and_then(|v| v.as_str())
+        .and_then(|t| t.strip_prefix("sql."))
+        .unwrap_or("generic");
+    let Some(dialect) = dialect_of(d) else {
+        return json!({"status": "no_tokenizer"});
+    };
+    let toks = |text: &str| -> Option<Vec<Token>> {
+        let (r, _) = guarded(|| Tokenizer::new(&*dialect, text).tokenize());
+        match r {
+            Ok(Ok(v)) => Some(
+                v.into_iter()
+                    .filter(|t| {
+                        // blanks, line breaks and comments (whose inner layout a formatter may change)
+                        !matches!(t, Token::Whitespace(_))
+                    })
+                    .collect(),
+            ),
+            _ => None,
+        }
+    };
+    let (Some(a), Some(b)) = (toks(sql), toks(&other)) else {
+        // same text either way means the tokenizer simply cannot read this dialect construct
+        let squeeze = |t: &str| t.split_whitespace().collect::<Vec<_>>().join(" ");
+        return json!({"status": "untokenizable", "same_modulo_blanks": squeeze(sql) == squeeze(&other)});
+    };
+    if a == b {
+        return json!({"status": "equal", "tokens": a.len(), "formatted_len": if was { sql.len() } else { other.len() }});
+    }
+    let i = a.iter().zip(b.iter()).position(|(x, y)| x != y).unwrap_or(a.len().min(b.len()));
+    let show = |v: &Vec<Token>| v.get(i).map(|t| format!("{:?}", t)).unwrap_or_else(|| "<end>".into());
+    let is_str = |v: &Vec<Token>| {
+        matches!(
+            v.get(i),
+            Some(
+                Token::SingleQuotedString(_)
+                    | Token::DoubleQuotedString(_)
+                    | Token::NationalStringLiteral(_)
+                    | Token::EscapedStringLiteral(_)
+                    | Token::TripleSingleQuotedString(_)
+                    | Token::TripleDoubleQuotedString(_)
+                    | Token::DollarQuotedString(_)
+                    | Token::Number(_, _)
+            )
+        )
+    };
+    json!({"status": "differs", "at": i, "this": show(&a), "other": show(&b), "literal": is_str(&a) || is_str(&b),
+           "other_sql": other})
 }
 
 fn op_tree_compile(req: &Value) -> Value {
